@@ -496,7 +496,17 @@ def normalize_contraction_generic_tuple(red_op, bin_op, reduced_vars, terms):
         )
         if not new_terms:  # everything was a unit
             new_terms = (terms[0],)
-        return Contraction(red_op, bin_op, reduced_vars, *new_terms)
+
+        # Dropping a unit must not change the declared output, e.g. a real
+        # unit multiplying bounded-integer terms.
+        def output_of(ts):
+            return reduce(
+                lambda lhs, rhs: find_domain(bin_op, lhs, rhs),
+                [v.output for v in reversed(ts)],
+            )
+
+        if output_of(new_terms) == output_of(terms):
+            return Contraction(red_op, bin_op, reduced_vars, *new_terms)
 
     for i, v in enumerate(terms):
         if not isinstance(v, Contraction):
